@@ -885,14 +885,14 @@ def run(chk: Check):
     traces = []
     # receive-heavy, depth bounded
     traces += _b1(chk, dict(base, RelPids="{1,2}", UnrelPids="{3}", MaxRcv=2, MaxSends=2, MaxUnrel=1,
-                            Depth=5 if quick else 6), "recv", 97 if quick else 97, max_pairs=20000 if quick else 60000)
+                            Depth=5 if quick else 6), "recv", 97 if quick else 97, max_pairs=12000 if quick else 60000)
     # timer-heavy, unbounded depth: budget exhaustion, retransmission counts
     traces += _b1(chk, dict(base, RelPids="{}", UnrelPids="{1}", MaxRcv=1, MaxSends=2, MaxUnrel=0, MaxAcks=1, Depth=0),
-                  "timer", 17 if quick else 7, max_pairs=15000 if quick else 0)
+                  "timer", 17 if quick else 7, max_pairs=8000 if quick else 0)
     # subscribers that remove themselves during dispatch, registered before / after permanent ones, both levels
     traces += _b1(chk, dict(base, RelPids="{1}", UnrelPids="{2}", MaxRcv=2, MaxSends=0, MaxUnrel=0, MaxAcks=0, Ticks="{}",
                             MaxSubs=2, SubKinds='{"perm", "once", "retTrue", "waitfor"}', Depth=5 if quick else 6),
-                  "subscribers", 151 if quick else 211, max_pairs=12000 if quick else 0)
+                  "subscribers", 151 if quick else 211, max_pairs=8000 if quick else 0)
     # the peer's StartPingCheck announcing its oldest unacknowledged packet (truthful or not), answered by the real region
     # handler; duplicates of the announced packet itself and of newer ones must still be suppressed
     traces += _b1(chk, dict(base, RelPids="{1,2}", UnrelPids="{}", MaxRcv=3, MaxSends=0, MaxUnrel=0, MaxAcks=0, Ticks="{}",
